@@ -33,6 +33,9 @@ def main():
         meta["needs"] = desc.get("needs", "")
     except Exception:
         pass
+    if os.environ.get("VERIF_ROOT"):
+        rc0, head = sh("git rev-parse --short HEAD", cwd=os.environ["VERIF_ROOT"])
+        meta["checks_from"] = "frozen copy of /verif at commit " + head.strip()
     meta["source"] = "written by an independent sub-agent that saw only the property text and a scratch worktree"
     global REPO, OUT
     if os.environ.get("SEED_IN_PLACE") != "1":
@@ -89,7 +92,7 @@ def main():
         results = {}
         for c in checks.split(","):
             t0 = time.time()
-            rc, out = sh("./check %s %s" % (c, tier), cwd="/verif", timeout=7200)
+            rc, out = sh("./check %s %s" % (c, tier), cwd=os.environ.get("VERIF_ROOT", "/verif"), timeout=7200)
             viol = [l for l in out.splitlines() if l.startswith("VIOLATION")]
             detail = [l.strip()[:300] for l in out.splitlines() if l.startswith("  case=")]
             asserts = sorted(set(re.findall(r'(?:assert|panic)=(\S+)', "\n".join(detail))))
